@@ -55,12 +55,37 @@ type c30Env struct {
 }
 
 func (e *c30Env) translate(index, field string, keys []string) ([]uint64, error) {
+	return e.translateOn(e.api, index, field, keys)
+}
+
+// keysEverywhere reports whether every node can already translate the given keys (key translation reaches the
+// non-coordinator nodes by asynchronous log streaming; an export served by a node that lags writes empty keys).
+func (e *c30Env) keysEverywhere(index string, rowKeys, colKeys []string) bool {
+	for k, nd := range e.nodes {
+		if k == 0 {
+			continue
+		}
+		if len(rowKeys) > 0 {
+			if ids, err := e.translateOn(nd.API, index, "f", rowKeys); err != nil || len(ids) != len(rowKeys) {
+				return false
+			}
+		}
+		if len(colKeys) > 0 {
+			if ids, err := e.translateOn(nd.API, index, "", colKeys); err != nil || len(ids) != len(colKeys) {
+				return false
+			}
+		}
+	}
+	return true
+}
+
+func (e *c30Env) translateOn(api *pilosa.API, index, field string, keys []string) ([]uint64, error) {
 	var ser proto.Serializer
 	body, err := ser.Marshal(&pilosa.TranslateKeysRequest{Index: index, Field: field, Keys: keys})
 	if err != nil {
 		return nil, err
 	}
-	buf, err := e.api.TranslateKeys(bytes.NewReader(body))
+	buf, err := api.TranslateKeys(bytes.NewReader(body))
 	if err != nil {
 		return nil, err
 	}
@@ -409,6 +434,33 @@ func TestVerifC30(t *testing.T) {
 		if !waitShards(src) {
 			return
 		}
+		// ... and until every node can translate the keys of this case (watchdog only)
+		waitKeys := func(index string) bool {
+			if len(nodes) == 1 || (!cs.IndexKeys && !cs.FieldKeys) {
+				return true
+			}
+			var rowKeys, colKeys []string
+			for row, cols := range cs.Rows {
+				if cs.FieldKeys && len(cols) > 0 {
+					rowKeys = append(rowKeys, row)
+				}
+				if cs.IndexKeys {
+					colKeys = append(colKeys, cols...)
+				}
+			}
+			deadline := time.Now().Add(30 * time.Second)
+			for !env.keysEverywhere(index, rowKeys, colKeys) {
+				if time.Now().After(deadline) {
+					r.Note("inconclusive:"+id, "key translation did not reach every node (watchdog)")
+					return false
+				}
+				time.Sleep(2 * time.Millisecond)
+			}
+			return true
+		}
+		if !waitKeys(src) {
+			return
+		}
 		r.Eval(1)
 		if d := env.check(ctx, src, "f", cs, "source after load"); d != "" {
 			r.Fail("setup", id, d, cs)
@@ -444,6 +496,7 @@ func TestVerifC30(t *testing.T) {
 			r.Fail(sig, id, "import command failed on the exported file: "+err.Error(), cs)
 			return
 		}
+		// (the destination is read through the coordinator's translation and the nodes' local rows: no replica translation involved)
 		if !waitShards(dst) {
 			return
 		}
